@@ -81,6 +81,12 @@ class FP(ASTNode):
     tag: int = 0
 
 
+@dataclass(frozen=True)
+class FU(ASTNode):  # child field typed as a union of node classes; the value is an instance of a LATER member
+    u: FL | FP | None = None
+    w: tuple[FS | FL, ...] = ()
+
+
 def build_pool():
     NODE_REGISTRY.clear()
     shared = FL(5, origin=zoo.O_A23)
@@ -90,7 +96,8 @@ def build_pool():
     t3 = FP(items=(FL(7), FS(8, origin=zoo.O_GEN)), tag=3)
     t3.detach()
     t4 = FP(one=FV(9), items=(FV(10, nc=1),))
-    return [t0, t1, t2, t3, t4]
+    t5 = FU(u=FP(one=FL(11), tag=5), w=(FL(12), FS(13)))
+    return [t0, t1, t2, t3, t4, t5]
 
 
 def all_nodes(pool):
@@ -175,7 +182,7 @@ def unary_ops():
     for k in ("keep", "rewrite", "replace", "remove", "raise"):
         ops[f"transform-{k}"] = (lambda kk: lambda t: tv(kk).transform(t))(k)
     ops["duplicate"] = lambda t: t.duplicate()
-    ops["replace-ok"] = lambda t: t.replace(tag=9) if isinstance(t, FP) else t.replace(v=9)
+    ops["replace-ok"] = lambda t: t.replace(tag=9) if isinstance(t, FP) else (t.replace(w=()) if isinstance(t, FU) else t.replace(v=9))
     ops["replace-failing"] = lambda t: t.replace(nosuch=1)
     # late failures: the new node is already built (and registered) when the subclass' own __post_init__ raises;
     # nc does not enter the id (the half-built node takes the original's id), v does
@@ -235,8 +242,8 @@ CHANGING = ("transform", "duplicate", "replace", "detach", "roundtrip")
 
 def op_menu():
     u, b = unary_ops(), binary_ops()
-    menu = [(name, (i,)) for name in u for i in range(5)]
-    menu += [(name, (i, j)) for name in b for i in range(5) for j in range(5)]
+    menu = [(name, (i,)) for name in u for i in range(6)]
+    menu += [(name, (i, j)) for name in b for i in range(6) for j in range(6)]
     return u, b, menu
 
 
@@ -297,6 +304,12 @@ def plan(tier, seed):
 
 def run_shard(cfg):
     rec = Rec(cfg)
+    # configuration dimension: every third shard runs with runtime type checking on (all inputs are well typed,
+    # so nothing may change)
+    from pyoak import config as _config
+
+    _config.RUNTIME_TYPE_CHECK = cfg["k"] % 3 == 2
+    rec.extra["runtime_type_check_in_shard_2_mod_3"] = True
     rec.extra["first_use"] = zoo.warm_up(cfg["k"], base=lambda: FL(1), derived=lambda: FS(2))
     u, b, menu = op_menu()
     if cfg["k"] == 0:
@@ -312,9 +325,9 @@ def run_shard(cfg):
             run_history(rec, u, b, hist)
     # deeper, on a reduced alphabet: every history of <= 4 registry / (de)serialization operations over the two
     # content-identical twin trees (ids with and without collision suffix)
-    red = [(name, (i,)) for name in ("detach", "detach_self", "dict-roundtrip-0", "dict-roundtrip-after-detach", "json-roundtrip-0", "duplicate", "replace-ok")
-           for i in (0, 2)]
-    for ln in range(3, 5):
+    names = ("detach", "detach_self", "dict-roundtrip-0", "dict-roundtrip-after-detach", "json-roundtrip-0", "duplicate", "replace-ok")
+    for ln, trees in ((3, (0, 2, 5)), (4, (0, 2))):
+        red = [(name, (i,)) for name in names for i in trees]
         for hist in itertools.product(red, repeat=ln):
             idx += 1
             if idx % cfg["of"] != cfg["k"]:
